@@ -168,7 +168,20 @@ std::string RouterSession::throughShapeClass(const Cn &c, Pt p, Pt q, const Poly
         if (ortho && ((p.x == q.x && std::fabs(p.x - pp.x) < 1e-9) || (p.y == q.y && std::fabs(p.y - pp.y) < 1e-9))) return ":via-a-connection-pin-of-the-crossed-shape";
         for (size_t i = 1; i < curRoute.size(); i++) if (ptSegDist(pp, curRoute[i - 1], curRoute[i]) < 1e-9) return ":via-a-connection-pin-of-the-crossed-shape";
     }
-    if (ortho) return "";
+    if (ortho) {
+        // KF-C03-d: another connector's end point lies inside the crossed shape (a shape was dragged over it) and the segment runs
+        // along the visibility line that end point throws through the shape
+        for (auto &kv : conns) {
+            const Cn &o = kv.second;
+            if (!o.alive || &o == &c) continue;
+            for (int e = 0; e < 2; e++) if (o.e[e].kind == 0 && ptInPolyClosed(o.e[e].pt, poly)) {
+                Pt pp = o.e[e].pt;
+                if ((p.x == q.x && std::fabs(p.x - pp.x) < 1e-9) || (p.y == q.y && std::fabs(p.y - pp.y) < 1e-9)) return ":along-the-visibility-line-of-another-connectors-end-point-inside-the-crossed-shape";
+                for (size_t i = 1; i < curRoute.size(); i++) if ((curRoute[i - 1].x == curRoute[i].x && std::fabs(curRoute[i].x - pp.x) < 1e-9) || (curRoute[i - 1].y == curRoute[i].y && std::fabs(curRoute[i].y - pp.y) < 1e-9)) return ":along-the-visibility-line-of-another-connectors-end-point-inside-the-crossed-shape";
+            }
+        }
+        return "";
+    }
     // Degenerate contact: the segment enters and leaves the crossed shape exactly at shape vertices (vertices of the
     // crossed shape itself -- a diagonal pass -- or of shapes touching it).  libavoid's blocking test treats a touch
     // at a vertex as harmless, so such a segment is not seen as blocked (KF-C03-a).
@@ -303,6 +316,9 @@ void RouterSession::checkAgainstFresh(const char *when) {
                 std::vector<Pt> r = routePts(c.ref->displayRoute());
                 for (auto &sk : shapes) if (sk.second.alive) for (size_t i = 1; i < r.size(); i++) if (segHitsPoly(r[i - 1], r[i], sk.second.poly, 1e-7)) { sig = "incremental-route-through-shape" + throughShapeClass(c, r[i - 1], r[i], sk.second.poly); }
             }
+            // classifier (KF-C06-b): a shape has been dragged over one of this connector's end points (cover history)
+            { bool covered = false; for (auto &sk : shapes) if (sk.second.alive) for (int e = 0; e < 2; e++) if (c.e[e].kind == 0 && ptInPolyClosed(c.e[e].pt, sk.second.poly)) covered = true;
+              if (covered) sig += ":connector-end-point-covered-by-a-shape"; }
             violate("C06", "cost-equals-fresh", sig, fmt("conn %d after %s: incremental %.9f fresh %.9f (%s, immediate=%d);%s", kv.first, when, inc, fr, ortho ? "ortho" : "poly", (int)!useTransactions, describeScene().c_str()));
             return;
         }
@@ -378,7 +394,8 @@ bool RouterSession::process(const Json &op, const char *when) {
             probe("router.noop-transaction");
             if (ret) violate("C06", "noop", "empty-transaction-returned-true", when);
             if (before != snapshotRoutes()) violate("C06", "noop", "empty-transaction-changed-a-route", when);
-        } else if (zeroMoveOnly && !costBefore.empty() && costOraclesApply) {
+        } else if (zeroMoveOnly && !costBefore.empty() && costOraclesApply && tunSelective) {
+            // (with the client's SelectiveReroute off, stale routes are expected; a zero move re-adds the shape and may improve them)
             probe("router.zero-move-transaction");
             size_t k = 0;
             for (auto &kv : conns) if (kv.second.alive) { if (k < costBefore.size() && std::fabs(routeCost(kv.second.ref) - costBefore[k]) > 1e-6) { violate("C06", "noop", "zero-move-changed-a-route-cost", fmt("conn %d: %.9f -> %.9f", kv.first, costBefore[k], routeCost(kv.second.ref))); break; } k++; }
